@@ -23,13 +23,13 @@ var asmCommon = []string{
 
 func init() {
 	prop("C01", "accepted QoS>=1 publishes are retransmitted until acknowledged", "§4 C01",
-		[]string{"ORD-1", "ORD-2", "ORD-3", "ORD-5", "ORD-13", "TOK-1", "TOK-5", "OWN-3", "OWN-4", "OWN-5", "OWN-8", "OWN-9"},
+		[]string{"ORD-1", "ORD-2", "ORD-3", "ORD-5", "ORD-13", "TOK-1", "TOK-5", "OWN-3", "OWN-4", "OWN-5", "OWN-8", "OWN-9", "ERR-8"},
 		"path-sensitive must-pass-through and typestate over SSA; who-may rules",
 		lvlCommon, noteCommon,
 		"Decides on every path: accept order (capacity test → Save=nil → enqueue → acceptN++; error ⇒ nothing enqueued/counted/written; first write only without backlog), resend (ascending from the acknowledgement counter, Load=nil and found → write=nil per iteration, DUP condition, both resends nil before the connection is published, under both sequence tokens and the write token), acknowledgement handlers (Delete/Save=nil before counter++ before close/forward; error returns carry no effect), every stream/handler/Persistence error in readSlices resets the connection; token balance and lock order; who may write the counters, delete records and close exchanges. Not decided: that the broker is eventually reached; payload bytes on the wire.",
 		asmCommon)
 	prop("C02", "restart resumes exactly the unacknowledged set", "§4 C02",
-		[]string{"ADP-1", "ADP-4", "ADP-7", "ADP-8", "COD-1", "COD-8", "COD-9", "ORD-1", "ORD-3", "ORD-4", "OWN-8", "ADP-9", "COD-10"},
+		[]string{"ADP-1", "ADP-4", "ADP-7", "ADP-8", "COD-1", "COD-8", "COD-9", "ORD-1", "ORD-3", "ORD-4", "OWN-8", "ADP-9", "COD-10", "ERR-8"},
 		"path rules and sibling/table comparison on AdoptSession, cleanSequence and the record codec",
 		lvlCommon, noteCommon,
 		"Decides: the adopted client continues the storage sequence (seqNo seeded from the decoded maximum before newClient); counters and placeholders are computed from cleanSequence results on every path; the three wrap-around adjustments add publishIDMask+1 and compare with the start of their range; cleanSequence restarts at the first pair after a dropped prefix; record encode/decode tables agree; AdoptSession classifies every key space the Save sites use; PUBREL is saved before it is counted and is kept for retry only after a durable Save. Not decided: equality of the recovered set with accepted-minus-acknowledged for arbitrary histories; counter arithmetic values.",
@@ -47,13 +47,13 @@ func init() {
 		"Decides: a QoS 2 delivery lies behind a marker Load that returned (nil,nil); every delivered QoS 1/2 message leaves the matching acknowledgement with the identifier parsed in the same call; a recognised duplicate is answered with PUBREC and not delivered; no error return leaves an acknowledgement queued (except the retried PUBREC of a duplicate); the flush saves the marker (nil) before PUBREC and truncates only behind a nil write; the read loop continues only with pendingAck empty; onPUBREL deletes (nil) before PUBCOMP regardless of the marker's existence; the three marker key expressions agree; toOffline keeps pendingAck. Not decided: once-per-cycle delivery over histories with restarts (needs marker contents).",
 		asmCommon)
 	prop("C05", "acceptance order, DUP only on re-delivery", "§4 C05",
-		[]string{"TOK-1", "TOK-5", "ORD-1", "ORD-2", "OWN-6", "OWN-2", "OWN-9", "COD-1", "COD-8"},
+		[]string{"TOK-1", "TOK-5", "ORD-1", "ORD-2", "OWN-6", "OWN-2", "OWN-9", "COD-1", "COD-8", "ERR-8"},
 		"token typestate and lock-order graph; must-pass-through; who-may rules",
 		lvlCommon, noteCommon,
 		"Decides: the sequence token is held across Save, enqueue and first write on every path (released only by the deferred unlock); sequence tokens are acquired before the write token in submitPersisted and connect (acyclic order graph); a backlog forbids an overtaking write; resend ascends from the oldest unacknowledged with DUP iff seqNo<submitN and PUBLISH; nobody else sets DUP or writes to the wire. Not decided: observed wire order under real schedules (follows from the above only given Go's channel semantics).",
 		asmCommon)
 	prop("C06", "inbound bytes exact under any fragmentation", "§4 C06",
-		[]string{"ORD-11", "ORD-12", "ORD-13", "ORD-14", "ORD-6", "COD-4"},
+		[]string{"ORD-11", "ORD-12", "ORD-13", "ORD-14", "ORD-6", "COD-4", "ERR-8"},
 		"typestate of the peeked packet over all paths of readSlices; argument-shape rule for unchecked Discard; loop-carried-remainder rule",
 		"A narrow structural claim (level 'other'): each peeked packet is skipped exactly once and never read stale, a parked BigMessage is served or cleared on every path, every error-ignoring Discard is provably within the buffer, and discard's retry resumes with the remainder. Byte equality of topic/payload per fragmentation is a run-time value claim and is not decided.",
 		noteCommon,
@@ -78,7 +78,7 @@ func init() {
 		"Decides: the four remaining-length encoders are structurally identical and encode exactly the value that was tested against packetMax; on every option combination and per loop iteration the remaining length equals the number of bytes appended after it (symbolic linear forms); every 16-bit length prefix is emitted for a string some validator bounds to 65,535; the CONNECT flag bits equal, on every option path, the set of optional fields emitted (Will QoS/Retain only with the Will Flag, Password only with User Name, bit 0 clear); stringCheck accepts only behind len ≤ stringMax judged at its boundary values, valid UTF-8 and a NUL search whose not-found result is told apart from position 0, topicCheck only non-empty strings that passed stringCheck; validators dominate the first side effect of every request method and constructor and no deny error is returned after one; validator sentinels are in denyErrs; identifier spaces are disjoint, non-zero and 16-bit. Not decided: full decode round-trip for all inputs, UTF-8 classification (utf8.ValidString trusted), that no valid argument is denied.",
 		asmCommon)
 	prop("C10", "the read routine never wedges", "§4 C10",
-		[]string{"RCH-1", "OWN-7", "TOK-1", "TOK-4", "TOK-5", "TOK-6", "TOK-7", "TOK-11", "ORD-5", "ORD-6", "ORD-7", "ORD-13", "ORD-14", "ERR-5", "TOK-8", "TOK-14"},
+		[]string{"RCH-1", "OWN-7", "TOK-1", "TOK-4", "TOK-5", "TOK-6", "TOK-7", "TOK-11", "ORD-5", "ORD-6", "ORD-7", "ORD-13", "ORD-14", "ERR-5", "TOK-8", "TOK-14", "ERR-8"},
 		"call-graph reachability; token typestate; must-pass-through; rendezvous rule",
 		lvlCommon, noteCommon,
 		"Decides: no function reachable from readSlices contains a wait-for-connect cycle (a CFG cycle through a receive from writeSem); read-routine fields and connect/toOffline/termCallbacks are confined to the read routine; failures are noticed (the connection is never redeposited after a failed write; every error return of readSlices except connect/marker-Save/BigMessage passes toOffline), toOffline closes, deposits connPending, clears readConn/bufr/peek/bigMessage and releases waiting requests after the token exchange; every failure exit of connect closes the new connection and deposits connDown; lock order acyclic, nothing foreign blocks under the write token, every goroutine rendezvous has its partner on all paths; callback channels never block the responder; ReadBackoff returns nil only for ErrClosed and otherwise a channel closed by a bounded timer. Not decided: that a dial eventually succeeds; timing bounds.",
@@ -96,25 +96,25 @@ func init() {
 		"Decides: Close/Disconnect cancel the context before waiting for connSem, take connSem, take or interrupt the writer, and close both tokens exactly once while holding both (a second call sees the closed channel and touches nothing); every receive from a closable token is comma-ok or under the closer's lock; the dialAndConnect watcher and the termCallbacks goroutines have their rendezvous partner on every path; signal flips happen under the write token with the opposite signal blocked first; no method is called on a connSignal or nil connection; ReadSlices calls termCallbacks on ErrClosed, queued exchanges get ErrClosed and stay open; DISCONNECT is the last packet; not-submitted classes imply no wire call. Not decided: 'promptly' as a time bound; goroutine-leak freedom beyond the spawned closures having exits on all paths.",
 		asmCommon)
 	prop("C13", "hostile broker input", "§4 C13",
-		[]string{"COD-2", "COD-3", "COD-4", "PAN-1", "PAN-2", "PAN-4", "ERR-6", "ORD-5", "ORD-3", "OWN-4", "ORD-13", "ORD-14"},
+		[]string{"COD-2", "COD-3", "COD-4", "PAN-1", "PAN-2", "PAN-4", "ERR-6", "ORD-5", "ORD-3", "OWN-4", "ORD-13", "ORD-14", "ERR-8"},
 		"dispatch exhaustiveness; guard dominance on entry paths; induction evaluation of the length loop; compiler bounds-check listing against a reasoned table",
 		lvlCommon, noteCommon,
 		"Decides: the head>>4 switch covers all sixteen types (eight handlers, eight sentinels wrapping errProtoReset); per handler the length, zero-identifier, identifier-space, next-in-line and queue-depth guards dominate the first effect; the remaining-length loop continues only while shift ≤ 14 (≤ 4 bytes); every bounds check the compiler could not prove matches a table row with its guard; validation failures wrap errProtoReset and every handler error resets the connection; completion and deletion happen only in the guarded in-order handlers; blocking reads follow a fresh deadline. Known finding F14 (ReadAll without deadline) is reported as KNOWN-FINDING. Not decided: semantics for arbitrary bytes beyond these guards (tolerated unsolicited SUBACK/PINGRESP are deliberate).",
 		asmCommon)
 	prop("C14", "documented error classes; not-submitted means nothing sent", "§4 C14",
-		[]string{"ERR-1", "ERR-2", "ERR-3", "ERR-4", "ERR-5", "ERR-6", "ERR-7", "ORD-1"},
+		[]string{"ERR-1", "ERR-2", "ERR-3", "ERR-4", "ERR-5", "ERR-6", "ERR-7", "ORD-1", "ERR-8"},
 		"interprocedural error-class value flow (sentinels, %w, errors.Join, channel alias classes) plus path rules",
 		lvlCommon, noteCommon,
 		"Decides: every origin that can reach the error result of a request method carries at least one class the package documentation lists for it; values sent on callback channels never carry a not-submitted class and exchange channels only ErrDown/ErrSubmit/ErrClosed; a return of class ErrClosed/ErrDown/ErrMax/ErrCanceled/deny lies on a path without any wire-capable call other than the one that produced it; quit arms return exactly ErrCanceled before and ErrAbandoned after submission; deny and end tables are disjoint and complete; Backoff/ReadBackoff return nil exactly under the permanent classes; a persisted publish that errs was not enqueued. Known finding F9c (Disconnect returns the raw Close error) is reported as KNOWN-FINDING. Not decided: the classifiers on arbitrarily wrapped/joined user errors.",
 		asmCommon)
 	prop("C15", "stored records round-trip; damage detected", "§4 C15",
-		[]string{"COD-8", "OWN-4", "OWN-8", "OWN-9", "ADP-2", "ADP-3", "ORD-7"},
+		[]string{"COD-8", "OWN-4", "OWN-8", "OWN-9", "ADP-2", "ADP-3", "ORD-7", "ERR-8"},
 		"writer/reader table comparison; who-may rules; path rules",
 		lvlCommon, noteCommon,
 		"Decides: encodeValue and decodeValue agree on hash constructor, byte orders, offsets (8/4/12) and hashed extent, the trailer buffer is per call, the length test dominates all slicing and acceptance requires both tests; the rugged Load returns a value only after a nil decode and reports absence only for a nil delegate result; every Persistence the client uses is rugged or volatile; AdoptSession decodes every listed key and deletes, warns and skips corrupt ones; the client identifier comes from a checked Load. Not decided: that FNV-1a detects every single-byte change (a fact about hash/fnv, trusted); multi-byte damage.",
 		asmCommon)
 	prop("C16", "a damaged Persistence never bricks the session", "§4 C16",
-		[]string{"ADP-1", "ADP-2", "ADP-3", "ADP-4", "ADP-5", "ADP-6", "ADP-7", "ADP-8", "ORD-2", "ORD-9", "COD-10"},
+		[]string{"ADP-1", "ADP-2", "ADP-3", "ADP-4", "ADP-5", "ADP-6", "ADP-7", "ADP-8", "ORD-2", "ORD-9", "COD-10", "ERR-8"},
 		"path rules and structural checks on AdoptSession and cleanSequence",
 		lvlCommon, noteCommon,
 		"Decides: every branch that warns also abandons what it names (corrupt record: delete+warn+continue before classification; PUBREL gap: list emptied; cleanSequence: prefix dropped and scan restarted at the first pair); every listed key is integrity checked; counters and placeholders come from cleanSequence results; capacity checks precede the placeholders and treat negative limits as default; fatal results stem only from Config, List, Load and the Max checks; wrap tests compare with the start of their range; resend needs the contiguity these establish. Not decided: which records survive a given damage pattern; a damaged client-identifier record.",
@@ -126,19 +126,19 @@ func init() {
 		"Decides: the four identifier spaces are pairwise disjoint, exclude zero and fit 16 bits; both queue capacities are clamped to ≤ publishIDMask+1 on every path of newClient; the ErrMax test dominates Save and the non-blocking enqueue, and acceptN advances exactly once per accepted message; a queue slot is released only behind a nil Delete; startTx tests the window and skips identifiers still in use, under the mutex; AdoptSession's wrap adjustments and Max checks. Not decided: uniqueness as a statement over histories (follows from bounded window + modulus only with counter arithmetic, not checked numerically).",
 		asmCommon)
 	prop("C18", "connection set-up", "§4 C18",
-		[]string{"ORD-7", "ORD-2", "TOK-1", "TOK-4", "ERR-2", "ERR-6"},
+		[]string{"ORD-7", "ORD-2", "TOK-1", "TOK-4", "ERR-2", "ERR-6", "ERR-8"},
 		"path-sensitive must-pass-through over connect, dialAndConnect, handshake, lockWrite",
 		lvlCommon, noteCommon,
 		"Decides: the first operation on a dialled connection is the write of newCONNREQ built from the passed Config and the client identifier from a checked Load; handshake succeeds only on paths that established both header bytes, Peek=nil, return code 0, flags ∈ {0,1} and session-present ⇒ ¬clean; CleanSession is cleared exactly when a previous connection existed, on the copy passed down; the connection reaches connSem/writeSem/readConn only after a nil dialAndConnect and, for writers, after both resends; every failure exit closes the connection and deposits connDown; lockWrite waits only on connPending, returns ErrDown only under connDown and the connection only after excluding both signals. Not decided: CONNECT field values for every Config (structurally covered under C09).",
 		asmCommon)
 	prop("C19", "FileSystem atomicity", "§4 C19",
-		[]string{"ORD-9", "COD-10"},
+		[]string{"ORD-9", "COD-10", "ERR-8"},
 		"must-pass-through over fileSystem.Save; who-may rule for file creation; format/filter agreement",
 		lvlCommon, noteCommon,
 		"Decides: the only success path of Save is Create(spoolFile(key)) → WriteTo=nil → Sync=nil → Close → Rename(spool, file(key))=nil; Rename is reachable only behind nil write and nil Sync; every failure after Create removes the spool file; no other function creates, opens for writing or renames files; Load and Delete map not-exist to absent; List accepts exactly five hex digits / 17 bits, which matches %05x and excludes *.spool. Not decided: atomicity of rename(2) and durability of fsync(2) (trusted OS contract); concurrent Saves of the same key share one spool name (outside the stated property).",
 		asmCommon)
 	prop("C20", "mqtttest doubles", "§4 C20",
-		[]string{"MCK-1", "MCK-2", "MCK-3", "MCK-4", "MCK-5", "MCK-6"},
+		[]string{"MCK-1", "MCK-2", "MCK-3", "MCK-4", "MCK-5", "MCK-6", "MCK-7"},
 		"path enumeration over the finite truth table of each double's conditions",
 		lvlCommon, noteCommon,
 		"Decides: NewPublishMock reports exactly on the paths where message or topic differs; the subscribe mocks classify each filter (present ⇒ removed, absent ⇒ wrong) and report iff wrong or todo is non-empty; want[i] is only indexed behind i<len(want); a Cleanup reports unmet expectations; every double with a quit parameter examines it first and returns mqtt.ErrCanceled untouched; the ReadSlices stub returns per-call allocations; the exchange stub sends every scripted error and closes on exactly the exits that are neither after ErrClosed nor an indefinite block; explicit panics only in documented argument checks. Not decided: real-time aspects of ExchangeBlock.Delay.",
